@@ -24,3 +24,8 @@ add("C20", "c20", "exploration", 400, 4000, exhaustive_if=["FuncsExhaustive"],
 add("C17", "c17", "exploration", 2500, 60000,
     assumptions=["the reference grammar in c17_test.go transcribes the grammar documented in ociref/reference.go and the OCI tag grammar; registered digest algorithms are sha256/384/512",
                  "router agreement is observed through ociserver.ServeHTTP with a recording backend (internal/ocirequest is not importable)"])
+
+add("C02", "c02", "exploration", 1000, 12000,
+    t={"require": ["ev:dangling-tag-read", "ev:referrers-nonempty", "ev:repush-after-delete", "ev:wrong-offset-write", "ev:immutable-refusal", "ev:mount-ok", "ev:commit-ok"]},
+    assumptions=["reference model internal/model transcribes interface.go's documented semantics; tolerances: a repository without content may be NAME_UNKNOWN or empty, a dangling tag may resolve or be MANIFEST_UNKNOWN, rejection of a malformed manifest may carry any error code (none is documented)",
+                 "artifactType filter always empty (filtering is a documented TODO)"])
